@@ -20,7 +20,7 @@ expected is derived from that text by the small resolver below (tab splitting on
     required direction;
   * reversing twice is the identity (the library compared with itself, so groups whose expected walk is doubtful
     are covered too): a second document is built in which every reference `q+` / `q-` to a path inside an O group
-    is written `q~-` / `q~+`, q~ being a new group `O q~ q-`.  Under every reading of "nested paths inlined and
+    is written `q~-` / `q~+`, q~ being a new group `O q~ q-` (named q + "r").  Under every reading of "nested paths inlined and
     reversed when referenced with -" the two documents describe the same paths: each O group must give the same
     walk in both, or an error in both, and each U group the same induced segments
     (double-reversal-changes-outcome / -path / -induced-set);
